@@ -408,8 +408,10 @@ def ode_loop_correspondence(ctx):
     def one(rn):
         integ, wdt10, typ, dt = rn
         for attempt in (0, 1):
-            r = subprocess.run(["timeout", "300", "gdb", "-batch", "-nx", "-x", gdbf, "--args", exe, "ode:" + integ, str(wdt10), str(typ), "4", "step", repr(dt)],
+            r = subprocess.run(["timeout", "90", "gdb", "-batch", "-nx", "-x", gdbf, "--args", exe, "ode:" + integ, str(wdt10), str(typ), "4", "step", repr(dt)],
                                capture_output=True, text=True)
+            if r.returncode == 124:
+                return "HANG"
             rows = [l.split() for l in r.stdout.splitlines() if l.startswith("OC ") or l.startswith("OR ")]
             if rows and "STATE" in r.stderr and len(rows) % 2 == 0:
                 return rows
@@ -422,6 +424,11 @@ def ode_loop_correspondence(ctx):
     H = lambda x: vlib.fhex(float(x))
     for rn, rows in zip(runs, traces):
         label = "ode:%s w*dt=%g dt=%g" % (rn[0], rn[1] / 10, rn[3])
+        if rows == "HANG":
+            ctx.violation("hang:ode-loop " + label, {"driver": "tools/c01_driver.c", "args": ["ode:" + rn[0], rn[1], rn[2], 4, "step", rn[3]],
+                                                     "what": "4 N-body steps with a harmonic-oscillator user ODE did not finish within 90 s"}, True,
+                          "the library hangs advancing a user ODE (%s)" % label)
+            bad.append((label, "hang")); continue
         if rows is None:
             bad.append((label, "no trace")); continue
         groups, cur = [], None
@@ -632,7 +639,7 @@ def history_probes(ctx, libdir):
     """BS with a user ODE (needs_nbody 0/1) -> every other integrator -> BS again -> the other integrator backwards, on ONE simulation
     object, each in its own child process: nothing may crash, the ODE solution must stay accurate."""
     others = ["whfast", "saba", "leapfrog", "mercurius", "ias15", "trace", "eos", "janus", "sei", "none"]
-    jobs = [(nb, o) for nb in (0, 1) for o in others]
+    jobs = [(nb, o) for nb in (0, 1) for o in others] + [("n0", o) for o in others + ["bs"]]
     def one(j):
         try:
             return vlib.run_py(libdir, os.path.join(HERE, "c01_history_probe.py"), list(j), timeout=300)
@@ -641,14 +648,15 @@ def history_probes(ctx, libdir):
     with ThreadPoolExecutor(max_workers=vlib.JOBS) as ex:
         res = list(ex.map(one, jobs))
     for (nb, o), r in zip(jobs, res):
-        key = "history:bs-user-ode(needs_nbody=%d)->%s->bs" % (nb, o)
+        key = ("history:bs-user-ode(needs_nbody=%d)->%s->bs" % (nb, o)) if nb != "n0" else "corner:N=0/%s" % o
         ctx.case(key=key)
         if r is None:
             ctx.violation(key, {"needs_nbody": nb, "integrator": o, "what": "timeout"}, True, "history probe hangs"); continue
         if r.returncode < 0 or r.returncode >= 128:
             ctx.violation(key, {"needs_nbody": nb, "integrator": o, "status": r.returncode, "stderr": r.stderr[-600:],
-                                "script": "tools/c01_history_probe.py %d %s" % (nb, o)}, True,
-                          "the library crashed (status %d) when a simulation with a BS user ODE was switched to %s" % (r.returncode, o))
+                                "script": "tools/c01_history_probe.py %s %s" % (nb, o)}, True,
+                          ("the library crashed (status %d) when a simulation with a BS user ODE was switched to %s" % (r.returncode, o)) if nb != "n0"
+                          else "the library crashed (status %d) stepping an EMPTY simulation (N=0) with integrator %s" % (r.returncode, o))
             continue
         try:
             d = json.loads(r.stdout.strip().splitlines()[-1])
@@ -661,18 +669,54 @@ def history_probes(ctx, libdir):
 
 
 def search(ctx, libdir, only=None):
-    args = [ctx.seed, ctx.tier] + ([only] if only else [])
-    r = vlib.run_py(libdir, os.path.join(HERE, "c01_search.py"), args, timeout=3000)
-    if r.returncode > 0:        # the library directory may have been purged by a concurrent check: rebuild, retry once
-        r = vlib.run_py(ctx.lib(), os.path.join(HERE, "c01_search.py"), args, timeout=3000)
-    if r.returncode != 0:
-        if r.returncode < 0:
-            ctx.violation("searcher-crash", {"status": r.returncode, "stderr": r.stderr[-1500:]}, True,
-                          "the library crashed while integrating a lattice point")
+    """the library-only searcher, one child process per group (in parallel); every scenario writes a heartbeat line first, so that a
+    hang (per-group wall-clock limit) or a crash of the library is reported with the concrete input that was running."""
+    groups = ["lattice", "adaptive", "ode", "warn", "history", "corners"] if not only else ["lattice"]
+    limit = ctx.scale(420, 2400)
+    d = os.path.join(vlib.BUILD, "c01drv"); os.makedirs(d, exist_ok=True)
+    def one(g):
+        prog = os.path.join(d, "progress_%s_%d.jsonl" % (g, os.getpid()))
+        try: os.remove(prog)
+        except OSError: pass
+        env = dict(vlib.pyenv(libdir), C01_GROUP=g, C01_PROGRESS=prog)
+        args = [vlib.PY, os.path.join(HERE, "c01_search.py"), str(ctx.seed), ctx.tier] + ([only] if only else [])
+        for attempt in (0, 1):
+            try:
+                r = subprocess.run(args, env=env, capture_output=True, text=True, timeout=limit)
+                status, out, errt = r.returncode, r.stdout, r.stderr
+            except subprocess.TimeoutExpired:
+                status, out, errt = "timeout", "", ""
+            if status == 0 or status == "timeout" or (isinstance(status, int) and status < 0) or attempt == 1:
+                break
+            env = dict(vlib.pyenv(ctx.lib()), C01_GROUP=g, C01_PROGRESS=prog)     # library directory purged by a concurrent check: retry once
+        last = None
+        try:
+            lines = open(prog).read().strip().splitlines()
+            last = json.loads(lines[-1]) if lines else None
+            os.remove(prog)
+        except (OSError, ValueError):
+            pass
+        return g, status, out, errt, last
+    with ThreadPoolExecutor(max_workers=len(groups)) as ex:
+        results = list(ex.map(one, groups))
+    res = {"points": [], "failures": []}
+    for g, status, out, errt, last in results:
+        if status == 0:
+            try:
+                part = json.loads(out)
+            except ValueError:
+                ctx.obligation("searcher:C01 group %s output" % g, False, out[-500:] + errt[-500:]); continue
+            res["points"] += part["points"]; res["failures"] += part["failures"]
+        elif status == "timeout":
+            nm = (last or {}).get("name", "?")
+            ctx.violation("hang:" + nm, dict(last or {}, group=g, wall_clock_limit_s=limit), True,
+                          "the library did not return within %d s while running scenario %s (group %s)" % (limit, nm, g))
+        elif isinstance(status, int) and (status < 0 or status >= 128):
+            nm = (last or {}).get("name", "?")
+            ctx.violation("crash:" + nm, dict(last or {}, group=g, status=status, stderr=errt[-600:]), True,
+                          "the library crashed (status %s) while running scenario %s" % (status, nm))
         else:
-            ctx.obligation("searcher:C01 completed", False, (r.stdout + r.stderr)[-1500:])
-        return None
-    res = json.loads(r.stdout)
+            ctx.obligation("searcher:C01 group %s completed" % g, False, (out + errt)[-1500:])
     dist = {}
     for p in res["points"]:
         fam = p["name"].split("/")[0]
@@ -686,7 +730,7 @@ def search(ctx, libdir, only=None):
             continue
         seen.add(f["name"])
         ctx.violation("order:" + f["name"], dict(f, seed=ctx.seed, tier=ctx.tier), True,
-                      "measured convergence order below the advertised one at lattice point %s" % f["name"])
+                      "measured convergence order / accuracy below the advertised one at lattice point %s" % f["name"])
     return res
 
 
